@@ -18,7 +18,7 @@ RULE = ('cases = (a) every potential definition of the documented grammar with n
         'variants bit-identical, equality with the Python-API composition where one exists; non-trivial = definition with >= 1 modifier / body with >= 1 operator')
 RULE += "; (d) names differing only in case (forms, parameters, tables, built-ins): documented meaning or refusal; (e) every pymath function x 6..24 argument expressions of either sign against Python's math; (f) formulas of magnitude 1e-300..1e200; (g) every custom-formula entry of the shared library evaluated three times over; further formatting variants: number spellings, values on the line after the key, blanks inside section brackets"
 ASSUMPTIONS = [
-    'pow() with three arguments and a^b^c are undocumented and outside the alphabet; operator precedence is judged only on the fixed probes',
+    'pow() with more than two operands is read as a left fold ((a**b)**c)**d (the anchored `reduce`; the repository\'s own three-operand test); the manual\'s example "pow(2, 3, 2) = 2^(2^3) = 256" fits neither association and is not used; a^b^c inside formulas is outside the alphabet; operator precedence is judged only on the fixed probes',
     'every unmarked definition (also nested in a modifier) acts for r > 0 only (documented default range)',
     'formula points where a sub-expression is undefined (division by zero, negative base with fractional exponent, overflow) are skipped and counted',
 ]
@@ -91,6 +91,14 @@ def definitions(tier):
         for e1, e2 in ((2, 0.5), (2, 1.5), (4, 0.25), (2, 2), (3, 2), (2.0, 0.5)):
             out.append(D(mod('pow', mod('pow', f_, form('constant', e1)), form('constant', e2))))
             out.append(D(mod('sum', mod('pow', mod('pow', f_, form('constant', e1)), form('constant', e2)), form('constant', 1))))
+    # pow() with three and four operands: each raised to the power of the next, from the left (what `reduce` gives and the repository's own
+    # three-operand test expects); every ordered choice of the later operands
+    pbase = form('polynomial', 1.5, 0.5)
+    pexp = [form('constant', 1.5), form('constant', 2), form('constant', 0.5), form('polynomial', 0.25, 0.05)]
+    for n in (2, 3):
+        for es in itertools.product(pexp, repeat=n):
+            out.append(D(mod('pow', pbase, *es)))
+    out.append(D(mod('pow', form('constant', 2), form('constant', 3), form('constant', 2), form('constant', 0.5))))
     # structured deep chains (depth 4 and 5) and wide modifiers (arity 5)
     for k in range(8):
         a, b, c_, d_, e_ = [plain[(k + j) % 5] for j in range(5)]
@@ -681,7 +689,7 @@ def run_formatting(case):
         n += len(RS)
         if vals is None:
             vals = got
-        elif got != vals:
+        elif list(map(repr, got)) != list(map(repr, vals)):       # (repr: a nan compares unequal to itself)
             viol.append(dict(sig='formatting-variant:%s' % name, msg='"%s": the variant "%s" gives %r, the canonical text gives %r' % (X.render_defn(d), name, got, vals), detail={'text': text}))
             break
     return viol, n
